@@ -8,17 +8,21 @@
 (***************************************************************************)
 EXTENDS OptAlphabet, Json, IOUtils, SequencesExt
 CONSTANTS MaxLen, Depth
-VARIABLES file, pst
-vars == <<file, pst>>
+VARIABLES idx, file, pst
+vars == <<idx, file, pst>>
 
 BigA == Big(Depth)
+BigSeq == SetToSeq(BigA \ Core)
 
-Init == file = <<>> /\ pst = InitP
+\* idx > 0: the one-statement file <<BigSeq[idx]>>; idx = 0: the files over Core (one initial state per big statement so
+\* that all TLC workers share the space)
+Init == idx \in 0..Len(BigSeq) /\ file = <<>> /\ pst = InitP
 Feed(s) == /\ Len(file) < MaxLen
+           /\ idx' = idx
            /\ file' = Append(file, s)
            /\ pst' = Step(pst, s, Len(file) + 1)
-Next == \/ file = <<>> /\ \E s \in BigA \cup Core : Feed(s)
-        \/ file # <<>> /\ file[1] \in Core /\ \E s \in Core : Feed(s)
+Next == \/ idx > 0 /\ file = <<>> /\ Feed(BigSeq[idx])
+        \/ idx = 0 /\ \E s \in Core : Feed(s)
 Spec == Init /\ [][Next]_vars
 
 \* the expressions of a statement
@@ -46,5 +50,5 @@ TypeOK == /\ pst.acc \in BOOLEAN /\ pst.at \in 0..MaxLen
           /\ (pst.acc => Len(pst.opts) = Len(file))
 
 EmitAlphabet == /\ TLCGet("stats").diameter >= 0
-                /\ JsonSerialize("alphabet.json", [big |-> SetToSeq(BigA \ Core), core |-> SetToSeq(Core)])
+                /\ JsonSerialize("alphabet.json", [big |-> BigSeq, core |-> SetToSeq(Core)])
 =============================================================================
